@@ -172,6 +172,17 @@ CHECKS = {
         design_ref="6.17",
         note=LEVEL_NOTE_COMMON + " The model is hand-written (not regenerated): the alias rules of sklearn check_array/normalize and numpy astype/fancy indexing are assumptions validated by the correspondence stream; numba kernels are covered only by the hash probes.",
     ),
+    "C04": dict(
+        technique="Coq proof over a line-by-line model of the data bookkeeping of update/prepare/compress (invariant by induction over every finite history, tree order of each rebuild an arbitrary permutation; invalidation lemmas) + history-level correspondence: storage, _vertex_order, graph rows and raised flag compared with the extracted model after every operation, the invalidated graph compared entry-for-entry, neighbor_graph and query answers checked against float64 references over the logical dataset",
+        text=("Theorems C04_history_invariant, C04_storage_is_logical_through_vertex_order, C04_graph_rows, C04_argsort_undoes_order, "
+              "C04_invalidation, C04_replaced_rows_emptied (coq/props/C04.v). Every run: generated histories construct -> "
+              "{prepare, query, update(fresh / replace / both), compress, pickle round-trip}* over float and bit-packed metrics, twin-row data, "
+              "tree_init and low_memory modes; after every operation _raw_data equals the model's storage (row tokens mapped to vectors), the graph "
+              "passed to init_from_neighbor_graph equals the extracted invalidate, and every stored graph / query distance equals the reference "
+              "distance between the logical rows."),
+        design_ref="6.4",
+        note=LEVEL_NOTE_COMMON + " That NN-descent restarted from the invalidated graph again satisfies C01 is covered by C01's kernel theorems and validated here per history, not re-proved for the update path; sparse update is unsupported by the library.",
+    ),
 }
 
 REASON_PENDING = "check not built yet in this round (design in DESIGN.md section 6; no claim is made until the check exists)"
